@@ -665,7 +665,28 @@ def b_repr(args, kw):
     return Opaque('repr')
 
 
+class VFile:
+    """A file of the virtual file system: what a path returned by spec.json_file denotes (its text) - also its own open handle."""
+    def __init__(self, text):
+        self.text = text
+
+    def pyvc_attr(self, I, name):
+        if name == 'read':
+            return Builtin('file.read', lambda a, k: self.text)
+        if name in ('close', '__exit__'):
+            return Builtin('file.' + name, lambda a, k: None)
+        if name == '__enter__':
+            return Builtin('file.__enter__', lambda a, k: self)
+        raise_py('AttributeError', name)
+
+
 def b_open(args, kw):
+    f = force(args[0])
+    if isinstance(f, VFile):
+        mode = args[1] if len(args) > 1 else kw.get('mode', 'r')
+        if isinstance(mode, str) and 'w' in mode:
+            raise OutOfSubset('writing files')
+        return f
     raise OutOfSubset('file I/O')
 
 
@@ -874,9 +895,10 @@ def stub_module(dotted):
         return m
     if dotted == 'json':
         return StubModule('json', {'dumps': _B('json.dumps', lambda x, **kw: _text_dump('json', x)), 'loads': _B('json.loads', lambda t: _text_load('json', t)),
-                                   'load': Builtin('json.load', lambda a, k: _raise_oos('file I/O')), 'dump': Builtin('json.dump', lambda a, k: _raise_oos('file I/O'))})
+                                   'load': _B('json.load', lambda f: _text_load('json', f)), 'dump': Builtin('json.dump', lambda a, k: _raise_oos('file I/O'))})
     if dotted == 'yaml':
-        return StubModule('yaml', {'dump': _B('yaml.dump', lambda x, **kw: _text_dump('yaml', x)), 'safe_load': _B('yaml.safe_load', lambda t: _text_load('yaml', t))})
+        return StubModule('yaml', {'dump': _B('yaml.dump', lambda x, **kw: _text_dump('yaml', x)), 'safe_load': _B('yaml.safe_load', lambda t: _text_load('yaml', t)),
+                                   'load': _B('yaml.load', lambda t, *a, **k: _text_load('yaml', t))})
     if dotted.split('.')[0] == 'schemdraw':
         from . import schemdraw_model
         return schemdraw_model.module(dotted)
@@ -936,8 +958,12 @@ def _text_dump(fmt, x):
 
 def _text_load(fmt, t):
     t = force(t)
+    if isinstance(t, VFile):
+        t = t.text
     if not isinstance(t, SerialText):
         raise OutOfSubset('parsing of arbitrary text')
+    if {'yml': 'yaml'}.get(t.fmt, t.fmt) != {'yml': 'yaml'}.get(fmt, fmt):
+        raise OutOfSubset(f'{t.fmt} text parsed by the {fmt} parser: outside the assumed contract of the serialisers')
     return _tree_copy(t.payload, fmt, False)
 
 
@@ -1078,7 +1104,7 @@ def _set_method(I, s, name):
     def pop():
         if not s.elems:
             raise_py('KeyError', 'pop from an empty set')
-        return s.elems.pop(0)
+        return s.elems.pop(-1 if CTX.set_reversed else 0)
 
     def update(*others):
         for o in others:
